@@ -248,6 +248,27 @@ pub fn dl_count_snapshot() {
 #[cfg(not(feature = "f_test_utils"))]
 pub fn dl_count_snapshot() {}
 
+/// Process-wide record of every actor id ever handed out (ids are small: a bitmap suffices).
+fn note_id(raw: u64) -> bool {
+    use std::sync::Mutex;
+    static SEEN: Mutex<(Vec<u64>, Vec<u64>)> = Mutex::new((Vec::new(), Vec::new()));
+    let mut g = SEEN.lock().unwrap();
+    if raw < (1 << 32) {
+        let (w, b) = ((raw / 64) as usize, raw % 64);
+        if g.0.len() <= w {
+            g.0.resize(w + 1, 0);
+        }
+        let fresh = g.0[w] & (1 << b) == 0;
+        g.0[w] |= 1 << b;
+        fresh
+    } else if g.1.contains(&raw) {
+        false
+    } else {
+        g.1.push(raw);
+        true
+    }
+}
+
 fn quiescence_name(q: Quiescence) -> &'static str {
     match q {
         Quiescence::AllDone => "all-done",
@@ -293,11 +314,17 @@ pub fn execute(sc: &Scenario, cfg: &SchedCfg) -> RunResult {
                 }
                 Ok((r, jh)) => {
                     let raw = r.identity().id;
+                    if !note_id(raw) {
+                        log(EvKind::ErrTrace { msg: format!("DUPLICATE-ID actor {a} was given an id already used in this process") });
+                    }
                     world::with(|w| {
                         w.raw_ids.insert(raw, a);
+                        if sc.peer_slots {
+                            w.slots.insert(50 + a, (Handle::Strong(r.clone()), a));
+                        }
                         w.slots.insert(a, (Handle::Strong(r), a));
                     });
-                    log(EvKind::Spawned { a, raw: 0, cap: spec.cap });
+                    log(EvKind::Spawned { a, raw: 0, cap: spec.cap, peer: sc.peer_slots });
                     sim::spawn_named(format!("join:{a}"), async move {
                         let r = jh.await;
                         let res = join_res(a, r);
